@@ -1,8 +1,8 @@
 (* C11 -- only the documented extent of caller buffers is read or written.
    Property theorems only: statement + exact + Print Assumptions. *)
 From Coq Require Import List ZArith Bool.
-From LJT Require Import model.Extent model.ExtentApi gen.GenAlign gen.GenTail
-  proofs.ExtentProofs proofs.ExtentYuvProofs proofs.ExtentApiProofs proofs.ExtentExamples.
+From LJT Require Import model.Extent model.ExtentApi model.ExtentTmp gen.GenAlign gen.GenTail
+  proofs.ExtentProofs proofs.ExtentYuvProofs proofs.ExtentApiProofs proofs.ExtentTmpProofs proofs.ExtentExamples.
 Import ListNotations.
 Local Open Scope Z_scope.
 
@@ -90,6 +90,30 @@ Theorem C11_yuv_unified_layout : forall width height ss align,
                = unified_off comp width height ss align).
 Proof. exact yuv_unified_layout. Qed.
 Print Assumptions C11_yuv_unified_layout.
+
+(* the temporary-buffer copies of the raw-data entry points, SOURCE side: at full size a plane
+   row (pw bytes) fits a temporary row (iw bytes) ... *)
+Theorem C11_tmpbuf_fullsize_fits : forall comp width ss,
+  1 <= width -> ss_valid ss comp -> plane_w comp width ss <= tmp_iw width comp ss 8.
+Proof. exact tmpbuf_fullsize_fits. Qed.
+Print Assumptions C11_tmpbuf_fullsize_fits.
+
+(* ... with IDCT scaling it need not.  tmp_rows_cover_pw is read from the CURRENT turbojpeg.c: with
+   temporary rows iw[i] apart (false) the copy-out of tj3DecompressToYUVPlanes8 reads past the end
+   of _tmpbuf (faithful model of the code as found = finding F10, replayed on the implementation
+   by the check); with rows MAX(iw[i], pw[i]) apart (true) every copy-out read is inside _tmpbuf *)
+Theorem C11_tmpbuf_copyout_wide_inside : copyout_inside true.
+Proof. exact tmpbuf_copyout_wide_inside. Qed.
+Print Assumptions C11_tmpbuf_copyout_wide_inside.
+
+Theorem C11_tmpbuf_copyout_refuted : copyout_overreads false.
+Proof. exact tmpbuf_copyout_overread. Qed.
+Print Assumptions C11_tmpbuf_copyout_refuted.
+
+Theorem C11_tmpbuf_copyout_current :
+  if tmp_rows_cover_pw then copyout_inside true else copyout_overreads false.
+Proof. exact tmpbuf_copyout_current. Qed.
+Print Assumptions C11_tmpbuf_copyout_current.
 
 (* (5) The property itself is extent_respected applied to the accesses the COMPILED LIBRARY
    performs on caller memory (machine loads and stores).  That function is not an object
